@@ -1,7 +1,7 @@
 (* C03/Proofs.v — lemmas for faithful decoding: unknown attributes and unknown child elements
    do not influence the struct decoder (all structs, all fuels, all positions), and the boundary
    example showing why unknown elements must not wrap object elements. *)
-From Coq Require Import List String Bool ZArith.
+From Coq Require Import List String Bool ZArith Permutation.
 From Verif Require Import Codec.Schema Codec.Value Codec.Xml Codec.Scan Codec.ProofsAttr C03.Spec.
 From VerifGen Require Import GenSchema.
 Import ListNotations.
@@ -54,6 +54,56 @@ Proof.
   - cbn [app unmarshal_attrs]. rewrite unmarshal_attr_nohit by assumption. reflexivity.
   - cbn [app unmarshal_attrs]. destruct (unmarshal_attr sch fs vs bn b) as [v1|e] eqn:H1; cbn [rbind]; [|reflexivity].
     apply IH; [|exact Hno]. rewrite (unmarshal_attr_length _ _ _ _ _ H1). exact Hl.
+Qed.
+
+(* ---------- attribute order ---------- *)
+Lemma unmarshal_attr_swap : forall fs vs an a bn b v1 v2,
+  an <> bn ->
+  unmarshal_attr sch fs vs an a = Ok v1 -> unmarshal_attr sch fs v1 bn b = Ok v2 ->
+  exists v1', unmarshal_attr sch fs vs bn b = Ok v1' /\ unmarshal_attr sch fs v1' an a = Ok v2.
+Proof.
+  induction fs as [|f fs IH]; intros vs an a bn b v1 v2 Hne H1 H2; destruct vs as [|v vs]; cbn [unmarshal_attr] in H1; try discriminate.
+  - injection H1 as <-. cbn [unmarshal_attr] in H2. injection H2 as <-. exists []. split; reflexivity.
+  - destruct (unmarshal_attr sch fs vs an a) as [r1|e] eqn:E1; cbn [rbind] in H1; [|discriminate].
+    destruct (is_attr f && String.eqb (eff_name sch f) an) eqn:Ha.
+    + destruct (attr_value sch AFUEL (f_type f) a) as [va|e] eqn:Eva; cbn [rbind] in H1; [|discriminate]. injection H1 as <-.
+      cbn [unmarshal_attr] in H2.
+      destruct (unmarshal_attr sch fs r1 bn b) as [r2|e] eqn:E2; cbn [rbind] in H2; [|discriminate].
+      assert (Hb : (is_attr f && String.eqb (eff_name sch f) bn) = false).
+      { apply andb_true_iff in Ha. destruct Ha as [Hi Hn]. rewrite Hi. cbn [andb]. apply String.eqb_eq in Hn.
+        apply String.eqb_neq. congruence. }
+      rewrite Hb in H2. injection H2 as <-.
+      destruct (IH vs an a bn b r1 r2 Hne E1 E2) as [r1' [E1' E2']].
+      exists (v :: r1'). cbn [unmarshal_attr]. rewrite E1', Hb. cbn [rbind]. split; [reflexivity|].
+      rewrite E2', Ha. cbn [rbind]. rewrite Eva. reflexivity.
+    + injection H1 as <-. cbn [unmarshal_attr] in H2.
+      destruct (unmarshal_attr sch fs r1 bn b) as [r2|e] eqn:E2; cbn [rbind] in H2; [|discriminate].
+      destruct (IH vs an a bn b r1 r2 Hne E1 E2) as [r1' [E1' E2']].
+      destruct (is_attr f && String.eqb (eff_name sch f) bn) eqn:Hb.
+      * destruct (attr_value sch AFUEL (f_type f) b) as [vb|e] eqn:Evb; cbn [rbind] in H2; [|discriminate]. injection H2 as <-.
+        exists (vb :: r1'). cbn [unmarshal_attr]. rewrite E1', Hb. cbn [rbind]. rewrite Evb. split; [reflexivity|].
+        rewrite E2', Ha. reflexivity.
+      * injection H2 as <-. exists (v :: r1'). cbn [unmarshal_attr]. rewrite E1', Hb. cbn [rbind]. split; [reflexivity|].
+        rewrite E2', Ha. reflexivity.
+Qed.
+
+(* any order of attributes with pairwise different names gives the same decoded fields *)
+Lemma unmarshal_attrs_perm : forall al al', Permutation al al' -> NoDup (map fst al) ->
+  forall fs vs r, unmarshal_attrs sch fs vs al = Ok r -> unmarshal_attrs sch fs vs al' = Ok r.
+Proof.
+  intros al al' Hp. induction Hp as [|[xn xa] l l' Hp IH|[xn xa] [yn ya] l|l l' l'' Hp1 IH1 Hp2 IH2]; intros Hnd fs vs r H.
+  - exact H.
+  - cbn [unmarshal_attrs] in *. destruct (unmarshal_attr sch fs vs xn xa) as [v1|e]; cbn [rbind] in *; [|discriminate].
+    cbn [map] in Hnd. inversion Hnd; subst. apply IH; assumption.
+  - cbn [unmarshal_attrs] in *.
+    destruct (unmarshal_attr sch fs vs yn ya) as [v1|e] eqn:E1; cbn [rbind] in H; [|discriminate].
+    destruct (unmarshal_attr sch fs v1 xn xa) as [v2|e] eqn:E2; cbn [rbind] in H; [|discriminate].
+    assert (Hne : yn <> xn).
+    { cbn [map fst] in Hnd. inversion Hnd as [|? ? Hni _]; subst. intros ->. apply Hni. left. reflexivity. }
+    destruct (unmarshal_attr_swap fs vs yn ya xn xa v1 v2 Hne E1 E2) as [v1' [E1' E2']].
+    rewrite E1'. cbn [rbind]. rewrite E2'. cbn [rbind]. exact H.
+  - apply IH2; [|apply IH1; assumption].
+    apply (Permutation_NoDup (Permutation_map fst Hp1)). exact Hnd.
 Qed.
 
 (* ---------- unknown child elements ---------- *)
